@@ -66,7 +66,7 @@ fn run_op(op: &SOp, api: &Api, monitor: &Arc<StdMutex<Option<Monitor>>>) -> Stri
         }
         SOp::Get { user, disp } => {
             let loc = teos_common::appointment::Locator::new(crate::sim::txid_of(TxName::D(*disp)));
-            match api.get_appointment(&loc, user_keys(*user).sign(format!("get appointment {loc}").as_bytes())) {
+            match api.get_appointment(&loc, user_keys(*user).sign(format!("get appointment {}", hex::encode(loc.to_vec())).as_bytes())) {
                 Ok(r) => format!("ok:status={}", r.status),
                 Err(e) => format!("err:{:?}", e.code),
             }
